@@ -245,18 +245,18 @@ fn operands(cur: &mut Cur, ops: &[(String, Quant)], rtype: Option<u32>, tr: &Tra
     for (kind, q) in ops {
         match q {
             Quant::One => {
-                let snapshot = out.clone();
+                let snapshot: Vec<Arg> = out.first().cloned().into_iter().collect(); // only the first operand (a switch's selector) is ever consulted
                 operand(cur, kind, rtype, &snapshot, tr, nested, out)?
             }
             Quant::ZeroOrOne => {
                 if cur.more_declared() {
-                    let snapshot = out.clone();
+                    let snapshot: Vec<Arg> = out.first().cloned().into_iter().collect(); // only the first operand (a switch's selector) is ever consulted
                     operand(cur, kind, rtype, &snapshot, tr, nested, out)?
                 }
             }
             Quant::ZeroOrMore => {
                 while cur.more_declared() {
-                    let snapshot = out.clone();
+                    let snapshot: Vec<Arg> = out.first().cloned().into_iter().collect(); // only the first operand (a switch's selector) is ever consulted
                     operand(cur, kind, rtype, &snapshot, tr, nested, out)?
                 }
             }
